@@ -20,6 +20,9 @@ type Mutant struct {
 	Old  string
 	New  string
 	Desc string
+	// Equivalent marks a behaviour-preserving edit (control): the rules must
+	// stay silent on it; an alarm is reported as a self-test failure.
+	Equivalent bool
 }
 
 type mutantResult struct {
@@ -75,15 +78,23 @@ func runMutants(p *Prop) *mutantReport {
 					fmt.Fprintf(os.Stderr, "mutant %s invalid (exit %d):\n%s\n", m.Name, code, out)
 				}
 			}
+			if m.Equivalent {
+				switch r.Outcome {
+				case "missed":
+					r.Outcome = "silent-on-equivalent"
+				case "killed", "killed-undecided":
+					r.Outcome = "false-alarm-on-equivalent"
+				}
+			}
 			rep.Results[i] = r
 		}(i)
 	}
 	wg.Wait()
 	for _, r := range rep.Results {
 		switch r.Outcome {
-		case "killed", "killed-undecided":
+		case "killed", "killed-undecided", "silent-on-equivalent":
 			rep.Killed++
-		case "missed":
+		case "missed", "false-alarm-on-equivalent":
 			rep.Missed++
 		default:
 			rep.Skipped++
